@@ -1,5 +1,6 @@
 """C19 — super() proxies see only the remainder of the MRO (DESIGN.md section 5, C19)."""
 import json
+import os
 import re
 from .. import common as C
 from . import regcommon as RC
@@ -16,7 +17,40 @@ THEOREMS = [
     "C19_super_cache_transparent", "C19_earlier_queries_irrelevant",
     "C19_implementedBy_eq_providedBy_on_super", "C19_super_adaptation", "C19_super_multi_adaptation",
     "C19_super_adapter_selected", "C19_flat_semantics", "C19_notified_exactly_dependents",
+    "C19_generated_next_super_class_eq_model", "C19_generated_implementedBy_super_eq_model",
+    "C19_generated_changed_eq_model", "C19_generated_entry_points_eq_model",
+    "C19_generated_adapter_hook_eq_model", "C19_generated_queryMultiAdapter_eq_model",
 ]
+GEN_FILE = os.path.join(C.COQ, "Gen", "SuperKernel.v")
+
+
+def regenerate(run):
+    """Re-translate the super kernel (declarations.py: _next_super_class, _implementedBy_super,
+    Implements.changed, the super branches of implementedBy / providedBy; adapter.py: adapter_hook,
+    queryMultiAdapter) into coq/Gen/SuperKernel.v, fail closed.  When the translator refuses the
+    current text the pinned kernel is written instead, so that Properties/C19.v still compiles,
+    and the refusal is returned as a broken obligation."""
+    from ..translate import super_kernel as T
+    src = os.path.join(C.REPO, "src", "zope", "interface")
+    errs = []
+    try:
+        text = T.translate_files(os.path.join(src, "declarations.py"), os.path.join(src, "adapter.py"))
+    except Exception as e:  # noqa: TranslationError, SyntaxError, OSError -- refuse, report, keep the pipeline alive
+        text = T.pinned()
+        errs.append("harness/translate/super_kernel.py refused the current declarations.py / adapter.py (%s: %s); "
+                    "coq/Gen/SuperKernel.v holds the pinned kernel, so the C19_generated_*_eq_model theorems are "
+                    "NOT about the current source" % (type(e).__name__, e))
+    with C.CoqLock():
+        C.write_if_changed(GEN_FILE, text)
+    run.coverage["translated_kernel"] = {"source": src, "generated": "coq/Gen/SuperKernel.v", "ok": not errs}
+    # the Tie (model + Spec oracle) does not depend on the generated kernel and must exist even when
+    # the equality proofs over a changed kernel fail
+    ok, out = C.coq_make(["Tie/C19.vo"])
+    if not ok:
+        errs.append("Tie/C19.vo does not build:\n" + out[-2000:])
+    return errs
+
+
 RULE = ("class DAGs of 1-6 classes above object (chains, diamonds, mixins without declarations, "
         "implementer_only classes) over 2-5 interfaces, 1-3 instances with direct declarations; "
         "every (C, ob) along every MRO is queried with providedBy, implementedBy and I.providedBy "
@@ -27,6 +61,9 @@ RULE = ("class DAGs of 1-6 classes above object (chains, diamonds, mixins withou
         "(diamond?, undeclared mixin?, only-class?, change-after-warm below an only class?, "
         "adaptation hit/miss pattern, #classes) signature")
 TRUSTED_BASE = [
+    "harness/translate/super_kernel.py (fail-closed ast translator) and its vocabulary coq/Model/SuperPrims.v: "
+    "one total function per accepted Python construct; the C twins (PySuper_Type checks, _adapter_hook) and "
+    "Specification.changed's walk over the dependents are tied by the correspondence only",
     "Model/Ro.v C3 resolver as Python's MRO (validated against every class's real __mro__ on every run)",
     "content of a specification = recomputation from the live declarations (property C02: change propagation "
     "keeps the cached __sro__/_implied equal to it); order inside __iro__ not modelled",
@@ -192,6 +229,9 @@ def gen_case(rng, tier):
                 a2 = ["obj", j2] if rng.random() < 0.5 else ["super", rng.choice(mro[objects[j2][0]][:-1]), j2]
                 pair = [a1, a2] if rng.random() < 0.5 else [a2, a1]
                 ops.append(["adapt", "multi", pair, p, nm])
+            if rng.random() < 0.5:
+                # the same adaptation again, nothing changed in between: the registry answers from its cache
+                ops.append(json.loads(json.dumps(ops[-1])))
 
     def change():
         j = rng.randrange(len(objects))
@@ -454,10 +494,14 @@ def replay_text(case, obs, mode):
     return "\n".join(L)
 
 
-TECHNIQUE = ("Coq proof over a Gallina transcription of _implementedBy_super / _next_super_class / Implements.changed / "
+TECHNIQUE = ("Coq proof over a Gallina kernel regenerated from the source text by a fail-closed ast translator (proved equal "
+             "to the model on every run) and a Gallina transcription of _implementedBy_super / _next_super_class / Implements.changed / "
              "the super branches of implementedBy and providedBy (Python and C) on top of Model/Ro.v's C3 and "
              "Model/Lookup.v's adapter_hook / queryMultiAdapter; vm_compute correspondence with both implementations")
-LEVEL_TEXT = ("Machine-checked theorems (Properties/C19.v, closed under the global context) state for every class DAG "
+LEVEL_TEXT = ("On every run _next_super_class, _implementedBy_super, Implements.changed, the super branches of implementedBy / "
+              "providedBy and adapter_hook / queryMultiAdapter are re-translated from the current source text into "
+              "Gen/SuperKernel.v and proved equal to the model for all inputs and states (C19_generated_*_eq_model). "
+              "Machine-checked theorems (Properties/C19.v, 19 theorems, closed under the global context) state for every class DAG "
               "with a C3 MRO, every (C, ob) along the MRO and every history of declarations, registrations and queries "
               "that the specification answered for super(C, ob) contains exactly the interfaces implemented by the "
               "classes strictly after C, that the _super_cache never changes an answer (also when type(ob) was "
